@@ -20,6 +20,7 @@ import time
 from typing import Any, Dict, List
 
 from .. import core_check, gen, pipeline, report, tla
+from ..core_check import budget_map
 from .. import replay as rp
 from .. import rt
 from ..pipeline import state_key
@@ -388,7 +389,7 @@ def actor_snapshot_leg(tier: str, seed: int):
         chunks = [cands[i::NPROC] for i in range(NPROC)]
         import concurrent.futures as cf
         with cf.ProcessPoolExecutor(max_workers=NPROC) as ex:
-            results = list(ex.map(actor_snapshot_chunk, [{"paths": c} for c in chunks if c]))
+            results = budget_map(ex, actor_snapshot_chunk, [{"paths": c} for c in chunks if c])
         dummy = pipeline.Built(gen.Spec({"id": "m", "initial": "s", "states": {"s": {}}}, "actors", "actor-driver"))
         for r in results:
             cov["actor_resume_points"] += r["paths"]
@@ -425,7 +426,7 @@ def run(prop: str, tier: str, seed: int) -> int:
         import concurrent.futures as cf
 
         with cf.ProcessPoolExecutor(max_workers=NPROC) as ex:
-            results = list(ex.map(unit, units))
+            results = budget_map(ex, unit, units)
     else:
         results = [unit(u) for u in units]
     cviol, ncorr, ncases, cres = run_corruptions(seed)
